@@ -63,6 +63,14 @@ impl CopyHandle {
             fs::rename(to, backup)?;
         }
 
+        // Only a regular file can be sized and filled, and opening a
+        // FIFO for writing waits for a reader that may never come.
+        if let Ok(tmeta) = fs::metadata(to) {
+            if !tmeta.is_file() {
+                return Err(XcpError::InvalidDestination("Destination exists and is not a regular file.").into());
+            }
+        }
+
         // Open without truncating, and decide on the opened file
         // whether it is the source after all: between the check
         // above and this open another worker may have created a
